@@ -155,6 +155,26 @@ def run(ctx, B):
         for j in range(len(cn), len(cn) + 3):
             if not (rc["flags"][j] & F_ERR):
                 V("crystal|unknown-name-accepted|%d" % (j - len(cn)), "unknown crystal name accepted")
+        # ------------------------------------------------------------ names that are NOT in a list (case variants, padded, truncated, extended): the lookup fails,
+        # or - if an implementation chooses to be lenient - what it returns is an entry OF the catalogue, identical to the one the list and the index give
+        def variants(nl):
+            out = []
+            for n in nl:
+                out += [n.lower(), n.upper(), n.swapcase(), n + " ", " " + n, n[:-1], n + "x"]
+            return [v for v in dict.fromkeys(out) if v not in nl]
+        for what, opn, nl in (("nist", "NISTByName", names), ("radio", "RadioByName", rnames), ("crystal", "Crystal_GetCrystal", cn)):
+            vs = variants(nl)
+            rv_, lv_ = X.op(opn, "s", nl + vs); bv_ = xrl.parse_blob_lines(lv_)
+            ctx.add(evaluations=len(vs))
+            canon = {bv_[j][0]: bv_[j] for j in range(len(nl)) if j in bv_}
+            for q, v in enumerate(vs):
+                j = len(nl) + q
+                if rv_["flags"][j] & F_ERR:
+                    continue
+                f = bv_.get(j)
+                if f is None or f[0] not in canon or f != canon[f[0]]:
+                    V("%s|variant-name|%s" % (what, v), "lookup of %r (not a name of the %s list) succeeds and returns %r, which is not an entry of the catalogue" % (v, what, (f or [None])[:3]),
+                      [dict(op=opn, sig="s", args=[v])])
         # the catalogue stays addressable in every way after the documented explicit insertion (one crystal that sorts first / in the middle / last, and two in a row)
         for ins in (["0_first"], ["Mm_middle"], ["zz_last"], ["0_first", "00_before"], ["zz_last", "zzz_after", "Aa"]):
             Y = xrl.Xrl("plain", cfg, build=B, nproc=1)
